@@ -35,7 +35,7 @@ package client
 //@   ensures[asks-support] issupported[0].happened
 //@   ensures[verbatim] after(issupported[0], err == nil) ==> getrawquote[0].happened
 //@ |       && r == after(getrawquote[0], r) && err == after(getrawquote[0], err) && !ioctl[0].happened
-//@   ensures[provider-input] getrawquote[0].happened ==> before(getrawquote[0], seq(reportData) == seq(reportData))
+//@   ensures[provider-input] getrawquote[0].happened ==> before(getrawquote[0], seq(reportData) == seq(outer_reportData))
 //@   ensures[no-provider-call] after(issupported[0], err != nil) ==> !getrawquote[0].happened
 
 //@ func fallbackToDeviceForRawQuote(reportData) (r, err)
